@@ -428,6 +428,11 @@ class DNSIncoming:
                 )
             linked_labels = self._name_cache.get(link_py_int)
             if not linked_labels:
+                if len(seen_pointers) >= MAX_DNS_LABELS:
+                    # Every hop is a level of recursion, a name never needs more hops than labels
+                    raise IncomingDecodeError(
+                        f"Maximum dns pointers reached while processing pointer at {off} from {self.source}"
+                    )
                 linked_labels = []
                 seen_pointers.add(link_py_int)
                 self._decode_labels_at_offset(link, linked_labels, seen_pointers)
